@@ -89,9 +89,19 @@ def clskey(u):
     return k
 
 
+def _label(ins, k):
+    # ... len(label), *label  ->  the label string
+    n = ins[k]
+    return ins[:k] + [bytes(int(x) for x in ins[k + 1:k + 1 + n]).decode('utf-8')] + ins[k + 1 + n:]
+
+
 def unit_inputs(u):
     if isinstance(u, iou.AbstractControl):
         return list(u.values)
+    if type(u).__name__ == 'Poll':
+        return _label(list(u.inputs), 3)      # trig, input, trig_id, len(label), *label
+    if type(u).__name__ == 'Dpoll':
+        return _label(list(u.inputs), 3)      # input, trig_id, run, len(label), *label
     return list(u.inputs)
 
 
@@ -121,6 +131,14 @@ def call(case, pre):
         return -bv(case['a'])
     if kind == 'method':
         return getattr(bv(case['self']), case['meth'])(*[bv(a) for a in case['args']])
+    if kind == 'dup':
+        return bv(case['self']).dup(case['n'])
+    if kind == 'sum':
+        return bv(case['self']).sum()
+    if kind == 'poll':
+        return bv(case['self']).poll(bv(case['trig']), bv(case['label']), bv(case['tid']))
+    if kind == 'dpoll':
+        return bv(case['self']).dpoll(bv(case['label']), bv(case['run']), bv(case['tid']))
     if kind == 'madd':
         return bv(case['self']).madd(bv(case['mul']), bv(case['add']))
     if kind == 'muladd_new':
